@@ -1843,7 +1843,12 @@ func (r *Redis) TTLCtx(ctx context.Context, key string) (val int, err error) {
 			return err
 		}
 
-		val = int(duration / time.Second)
+		if duration >= 0 {
+			val = int(duration / time.Second)
+		} else {
+			// -2 表示 key 不存在，-1 表示 key 存在但未设置过期时间（go-redis 以纳秒值原样返回这两个标记）
+			val = int(duration)
+		}
 		return nil
 	}, acceptable)
 
